@@ -92,6 +92,11 @@ type websocketPeer struct {
 	recvDone   chan struct{}
 	writerDone chan struct{}
 
+	// Pings received by the recvHandler goroutine, to be answered by the
+	// sender goroutine, and count of keepalive pings sent without a pong.
+	pongs        chan string
+	pendingPongs int32
+
 	log stdlog.StdLog
 }
 
@@ -208,6 +213,24 @@ func NewWebsocketPeer(conn WebsocketConnection, serializer serialize.Serializer,
 	}
 	w.ctxSender, w.cancelSender = context.WithCancel(context.Background())
 
+	// Install the control message handlers before the goroutines start:
+	// they are called by the goroutine that reads from the websocket.
+	w.pongs = make(chan string, 1) // capacity must be >= 1
+	conn.SetPingHandler(func(m string) error {
+		select {
+		case w.pongs <- m:
+		default:
+		}
+		return nil
+	})
+	if keepAlive != 0 {
+		conn.SetPongHandler(func(msg string) error {
+			// Any response resets counter.
+			atomic.StoreInt32(&w.pendingPongs, 0)
+			return nil
+		})
+	}
+
 	// Sending to and receiving from websocket is handled concurrently.
 	go w.recvHandler()
 	if keepAlive != 0 {
@@ -268,14 +291,7 @@ func (w *websocketPeer) sendHandler() {
 	defer close(w.writerDone)
 	defer w.cancelSender()
 
-	pongs := make(chan string, 1) // capacity must be >= 1
-	w.conn.SetPingHandler(func(m string) error {
-		select {
-		case pongs <- m:
-		default:
-		}
-		return nil
-	})
+	pongs := w.pongs
 
 sendLoop:
 	for {
@@ -308,21 +324,7 @@ func (w *websocketPeer) sendHandlerKeepAlive(keepAlive time.Duration) {
 	defer close(w.writerDone)
 	defer w.cancelSender()
 
-	pongs := make(chan string, 1) // capacity must be >= 1
-	w.conn.SetPingHandler(func(m string) error {
-		select {
-		case pongs <- m:
-		default:
-		}
-		return nil
-	})
-
-	var pendingPongs int32
-	w.conn.SetPongHandler(func(msg string) error {
-		// Any response resets counter.
-		atomic.StoreInt32(&pendingPongs, 0)
-		return nil
-	})
+	pongs := w.pongs
 
 	ticker := time.NewTicker(keepAlive)
 	defer ticker.Stop()
@@ -347,7 +349,7 @@ recvLoop:
 			}
 		case <-ticker.C:
 			// If missed 2 responses, close websocket.
-			if atomic.LoadInt32(&pendingPongs) >= 2 {
+			if atomic.LoadInt32(&w.pendingPongs) >= 2 {
 				w.log.Print("peer not responging to pings, closing websocket")
 				_ = w.conn.Close()
 				return
@@ -357,7 +359,7 @@ recvLoop:
 			if err != nil {
 				return
 			}
-			atomic.AddInt32(&pendingPongs, 1)
+			atomic.AddInt32(&w.pendingPongs, 1)
 		case m := <-pongs:
 			err := w.conn.WriteMessage(websocket.PongMessage, []byte(m))
 			if err != nil {
